@@ -28,11 +28,13 @@ type chainRun struct {
 	col   *kernel.Collector
 	nodes []*Node
 	// per node: blocks accepted (G_n of the C02 model), header-only accepted set
-	accepted []map[int]bool
-	hdrOnly  []map[int]bool
-	prevTD   []*big.Int
-	odigest  map[int]string
-	vs       []kernel.Violation
+	accepted  []map[int]bool
+	hdrOnly   []map[int]bool
+	pivotHead map[int]bool         // per node: the head was set by a fast-sync pivot and no executed block has followed yet
+	fast      map[int]map[int]bool // per node: blocks stored through the fast-sync path (body + receipts, not executed)
+	prevTD    []*big.Int
+	odigest   map[int]string
+	vs        []kernel.Violation
 	// which oracle sets are on
 	c01, c02, c03 bool
 	txIndex       map[common.Hash][]txLoc // every tx ever mined -> locations
@@ -226,6 +228,9 @@ func (c *chainRun) apply(i int, op Op) {
 		if c.c01 {
 			c.checkC01Import(i, op, okUpTo)
 		}
+		if c.pivotHead[op.Node] && n.HeadID() != before {
+			c.pivotHead[op.Node] = false // an executed block followed: the head pointer is on disk now
+		}
 	case "headers":
 		idx, err, died, pan := n.InsertHeaders(op.Blocks)
 		if pan != "" || died != "" {
@@ -249,6 +254,59 @@ func (c *chainRun) apply(i int, op Op) {
 			}
 		}
 		c.col.Add("op_insert_headers", int64(len(op.Blocks)))
+	case "receipts":
+		// fast sync, second stage: bodies and receipts of blocks whose headers the node has
+		idx, err, died, pan := n.InsertReceipts(op.Blocks)
+		if pan != "" || died != "" {
+			c.add("import-panic", i, "InsertReceiptChain died=%q panic=%s", died, firstLines(pan, 14))
+			return
+		}
+		okUpTo := len(op.Blocks)
+		if err != nil {
+			okUpTo = idx
+			bad := op.Blocks[idx]
+			if (c.hdrOnly[op.Node][bad] || c.accepted[op.Node][bad]) && contiguous(u, op.Blocks) {
+				c.add("valid-receipts-rejected", i, "node %d: InsertReceiptChain(%v) failed at %d (block id %d, header known): %v", op.Node, op.Blocks, idx, bad, err)
+				return
+			}
+			c.col.Inc("non_parent_closed_delivery")
+		}
+		if c.fast == nil {
+			c.fast = map[int]map[int]bool{}
+		}
+		if c.fast[op.Node] == nil {
+			c.fast[op.Node] = map[int]bool{}
+		}
+		for _, id := range op.Blocks[:okUpTo] {
+			if c.hdrOnly[op.Node][id] || c.accepted[op.Node][id] {
+				c.fast[op.Node][id] = true
+			}
+		}
+		c.col.Add("op_insert_receipts", int64(okUpTo))
+	case "pivot":
+		// fast sync, last stage: the state of one block is downloaded, the block becomes the head
+		id := op.Blocks[0]
+		if !c.fast[op.Node][id] && !c.accepted[op.Node][id] {
+			c.col.Inc("non_parent_closed_delivery")
+			break
+		}
+		fetched, err, died, pan := n.SyncState(id, op.Arg)
+		if pan != "" || died != "" {
+			c.add("import-panic", i, "state sync / FastSyncCommitHead died=%q panic=%s", died, firstLines(pan, 14))
+			return
+		}
+		if err != nil {
+			c.add("state-sync-failed", i, "node %d: state of block id %d (#%d) served correctly by a peer: %v", op.Node, id, u.Blocks[id].NumberU64(), err)
+			return
+		}
+		c.accepted[op.Node][id] = true
+		c.prevTD[op.Node] = nil
+		if c.pivotHead == nil {
+			c.pivotHead = map[int]bool{}
+		}
+		c.pivotHead[op.Node] = true
+		c.col.Add("state_entries_synced", int64(fetched))
+		c.col.Inc("probe_fast_sync_pivot_committed")
 	case "sethead":
 		err, died, pan := n.SetHead(op.Num)
 		if pan != "" || died != "" {
@@ -292,6 +350,14 @@ func (c *chainRun) apply(i int, op Op) {
 		}
 		n.BC = bc
 		c.col.Inc("op_clean_restart")
+		if c.pivotHead[op.Node] && n.HeadID() != before {
+			// the pivot of a fast sync becomes the head in memory only (FastSyncCommitHead writes no
+			// head pointer); until the first executed block follows, a restart reopens at the
+			// last executed head. Outside the properties checked here: counted, not judged.
+			c.col.Inc("probe_restart_right_after_pivot_reopened_at_last_executed_head")
+			c.pivotHead[op.Node] = false
+			break
+		}
 		if after := n.HeadID(); after != before {
 			c.add("head-changed-across-clean-restart", i, "node %d head id %d before Stop, id %d after reopening", op.Node, before, after)
 			return
